@@ -990,6 +990,7 @@ Lemma sync_ips_keeps p fl x e : ∀ ips idx w,
 Proof.
   induction ips as [|y rest IH]; intros idx w Hi He; [done|]. cbn [sync_ips].
   destruct (by_ip (w_ipam w) y) as [e0|]; [|by apply IH]. destruct (Keys.is_empty (e_key e0)); [|by apply IH].
+  destruct (existsb _ (by_key (w_ipam w) (pod_key p))); [by apply IH|].
   apply IH; cbn [set_ipam w_ipam]; [by apply inv2_alloc_specific|].
   destruct (alloc_specific (w_ipam w) (pod_key p) y _ _) as [s' r] eqn:Ea. cbn [fst].
   destruct (alloc_specific_spec _ _ _ _ _ _ _ Ea) as [(_ & Hy & -> & _)|[_ ->]]; [|done].
